@@ -20,11 +20,11 @@ def reset():
 
 
 def set_size(size: int):
-    for cached in _cached:
+    for i, cached in enumerate(_cached):
         wrapped = cached.__wrapped__
-        setattr(
-            sys.modules[wrapped.__module__], wrapped.__name__, lru_cache(size)(wrapped)
-        )
+        resized = lru_cache(size)(wrapped)
+        _cached[i] = resized  # otherwise reset() keeps clearing the replaced cache
+        setattr(sys.modules[wrapped.__module__], wrapped.__name__, resized)
 
 
 K = TypeVar("K")
